@@ -894,6 +894,9 @@ func (s *Service) subscribe(nc Conn, inCh chan *nats.Msg) error {
 		return errors.New("res: no resources to serve")
 	}
 	var patterns []string
+	for _, p := range s.resetAccess {
+		patterns = append(patterns, "access."+p)
+	}
 	for _, t := range []string{RequestTypeGet, RequestTypeCall, RequestTypeAuth} {
 		for _, p := range s.resetResources {
 			pattern := t + "." + p
@@ -904,24 +907,13 @@ func (s *Service) subscribe(nc Conn, inCh chan *nats.Msg) error {
 
 		}
 	}
-	for _, p := range s.resetAccess {
-		pattern := "access." + p
-		s.tracef("sub %s", pattern)
-		if s.queueGroup == "" {
-			_, err = nc.ChanSubscribe(pattern, inCh)
-		} else {
-			_, err = nc.ChanQueueSubscribe(pattern, s.queueGroup, inCh)
-		}
-		if err != nil {
-			return err
-		}
-	}
 
 next:
 	for i, pattern := range patterns {
-		// Skip patterns that overlap one another
+		// Skip patterns covered by another pattern, and any repetition of an
+		// earlier pattern, so that no request is received twice.
 		for j, mpattern := range patterns {
-			if i != j && Pattern(mpattern).Matches(pattern) {
+			if i != j && Pattern(mpattern).Matches(pattern) && (mpattern != pattern || j < i) {
 				continue next
 			}
 		}
